@@ -22,6 +22,11 @@ DEVS = [("CapSingle", "TransformLabelsFromFit"), ("CapSingle", "QueryReadsTransf
 def main():
     a, rep, replay = parse(PROP)
     rep.assumptions = ["a sample's content is a function of its label, so equal labels carry equal data", "values compared to 1e-6 of the score scale"]
+    if replay is not None and replay["scenario"].get("kind") == "lifecycle_path":
+        from .. import liferun as _lr
+        _lr.replay_path(rep, replay["scenario"], TAGS)
+        rep.extra["distinct_nontrivial"] = 2
+        return common.finish(rep)
     if replay is not None and replay["scenario"].get("kind") == "scenario":
         out = unseen.evaluate(replay["scenario"]["index"], replay["scenario"]["scenario"])
         for prop, clause, msg in out["found"]:
